@@ -314,7 +314,6 @@ impl<'data> ProguardCache<'data> {
         // At this point, we know how many members/members-by-params each class has because we kept count,
         // but we don't know where each class's entries start. We'll rectify that below.
 
-        let mut writer = watto::Writer::new(writer);
         let string_bytes = string_table.into_bytes();
 
         let num_members = classes.values().map(|c| c.class.members_len).sum::<u32>();
@@ -332,8 +331,12 @@ impl<'data> ProguardCache<'data> {
             string_bytes: string_bytes.len() as u32,
         };
 
+        // The number of bytes written so far, used to pad every section to 8 bytes.
+        let mut written = 0;
+
         writer.write_all(header.as_bytes())?;
-        writer.align_to(8)?;
+        written += header.as_bytes().len();
+        written += write_padding(writer, written)?;
 
         let mut members = Vec::new();
         let mut members_by_params = Vec::new();
@@ -349,14 +352,17 @@ impl<'data> ProguardCache<'data> {
                     .flat_map(|m| m.into_iter()),
             );
             writer.write_all(c.class.as_bytes())?;
+            written += c.class.as_bytes().len();
         }
-        writer.align_to(8)?;
+        written += write_padding(writer, written)?;
 
         writer.write_all(members.as_bytes())?;
-        writer.align_to(8)?;
+        written += members.as_bytes().len();
+        written += write_padding(writer, written)?;
 
         writer.write_all(members_by_params.as_bytes())?;
-        writer.align_to(8)?;
+        written += members_by_params.as_bytes().len();
+        write_padding(writer, written)?;
 
         writer.write_all(&string_bytes)?;
 
@@ -407,6 +413,17 @@ impl<'data> ProguardCache<'data> {
     pub(crate) fn read_string(&self, offset: u32) -> Result<&'data str, watto::ReadStringError> {
         StringTable::read(self.string_bytes, offset as usize)
     }
+}
+
+/// Writes the zero bytes that pad `written` bytes to the next multiple of 8.
+///
+/// Returns the number of padding bytes. Unlike a single `write` call this does
+/// not lose bytes when the writer accepts fewer bytes than offered.
+fn write_padding<W: Write>(writer: &mut W, written: usize) -> std::io::Result<usize> {
+    const PADDING: [u8; 8] = [0; 8];
+    let len = (8 - written % 8) % 8;
+    writer.write_all(&PADDING[..len])?;
+    Ok(len)
 }
 
 /// A class that is currently being constructed in the course of writing a [`ProguardCache`].
